@@ -50,6 +50,24 @@ def sym_intlist(it, name):
     return PyList(None, n, arr, name)
 
 
+def result_shape(v, depth=0):
+    """coarse shape of a returned value, used to compare what a function really returns (in its own unit) with what the
+    result generator of its contract produces at call sites: None / empty, one-element, longer or symbolic list / tuple arity"""
+    if v is None:
+        return 'None'
+    if isinstance(v, bool):
+        return 'bool:%s' % v
+    if isinstance(v, PyList):
+        if v.items is None:
+            return 'list:sym'
+        return 'list:%s' % (len(v.items) if len(v.items) < 2 else 'many')
+    if isinstance(v, tuple):
+        if depth >= 1:
+            return 'tuple:%d' % len(v)
+        return 'tuple(%s)' % ','.join(result_shape(x, depth + 1) for x in v)
+    return 'value'
+
+
 def make_value(it, T, hint):
     """Fresh value of type spec T."""
     ctx = it.ctx
@@ -259,6 +277,7 @@ class Contract(object):
                 res = it.spec_eval(self.result_expr, env)
             elif self.result_make is not None:
                 res = self.result_make(it, env)
+                ctx.collector.cover('made-shape|%s|%s' % (self.qualname, result_shape(res)), True)
             elif self.result_type is not None:
                 res = make_value(it, self.result_type, 'ret_' + func.name)
             else:
@@ -734,6 +753,8 @@ class FunctionUnit(object):
             post.vars.update(pre_extra)
             if exc is None:
                 col.cover(self.name + ':normal-exit', True)
+                if c.result_make is not None:
+                    col.cover('real-shape|%s|%s' % (c.qualname, result_shape(result)), True)
                 post.vars['result'] = result
                 for g, (T, w) in c.ghost.items():
                     post.vars[g] = it.spec_eval(w, post)
